@@ -155,6 +155,15 @@ def diff(a, b, path, out, limit=12, ignore=()):
             diff(x, y, '%s[%d]' % (path, i), out, limit, ignore)
         return
     if isinstance(a, dict):
+        from . import run as _run
+        fp = _run.footprint()
+        if fp and not any(k.startswith("'") or k.startswith('"') or k.startswith('(') for k in list(a) + list(b)):
+            # fields of an object: attributes no contract mentions are not compared directly (see run.footprint)
+            if all(isinstance(k, str) for k in list(a) + list(b)) and (set(a) | set(b)) - fp:
+                unknown = (set(a) | set(b)) - fp
+                if all(k.isidentifier() for k in unknown):
+                    a = dict((k, v) for k, v in a.items() if k not in unknown)
+                    b = dict((k, v) for k, v in b.items() if k not in unknown)
         if ignore:
             a = dict((k, v) for k, v in a.items() if k not in ignore)
             b = dict((k, v) for k, v in b.items() if k not in ignore)
@@ -229,6 +238,8 @@ def trial(contract, build, values=None, seed=0, ignore=(), only=None, post_body=
         rb = sb.take([out_b[1]] + [args_b[k] for k in sorted(args_b)])
         names = ['return'] + ['arg ' + k for k in sorted(args_a)]
         for nm, x, y in zip(names, ra[2], rb[2]):
+            if any(nm == p or nm.startswith(p + '.') or nm.startswith(p + '[') for p in ignore):
+                continue
             diff(x, y, nm, diffs, ignore=ignore)
         if post_body is not None:
             with warnings.catch_warnings():
